@@ -14,6 +14,12 @@ T = {
     ref="6. C12"),
 }
 
+T["C20"] = dict(
+    text="TLC exhaustively model-checks spec/Settings.tla (settings singleton + stack of context frames; Enter/ExitOne/Raise-to-level/Assign) to nesting depth 4 and 7-8 actions: action properties ExitRestores (every key named by a frame that is left has that frame's entry value, others untouched, on normal and exceptional exits) and EnterVisible; canary RestoreAll must fail. Every behaviour of a smaller instance is replayed with real nested `with fl.settings.context(...)` blocks, real exceptions caught at the chosen level and direct assignments, mapped onto all 42 ordered pairs of the 7 real settings (thorough: simulated behaviours over all 7), comparing vars(settings) and the helpers reading them after every step; recorded enter/exit events are validated by spec/Trace_Settings.tla.",
+    note="Bounded: depth 4, 4-5 actions replayed, 2 model keys (independence argument) plus simulation over 7. Trusted: TLC, CPython's with-statement semantics, the harness.",
+    technique="TLA+ state machine + TLC exhaustive model checking; spec->code behaviour replay; code->spec trace validation",
+    ref="6. C20")
+
 PLANNED = {}
 
 def main():
